@@ -584,11 +584,21 @@ fn run_c08_sync(cfg: &RunCfg, trace: bool) -> RunOut {
                 ctl.fault.lock().unwrap().armed = false;
             }
         }
+        // the simulator's own snapshot after every step consists of pure observers: a mutating
+        // call issued while it ran is an observer that mutates (e.g. housekeeping in a listing)
+        let offence = cx.built[0].ctl.quiet_offence.lock().unwrap().take();
+        if let Some(r) = offence {
+            let key = format!("C08|{}|observer-mutates|{}|during=snapshot", shape, r.method);
+            let detail = format!("after step {} {:?}: the pure observers of the snapshot (exists, metadata, read_dir, open_file+read, walk_dir) issued the mutating call {}('{}') to node {}", i, op, r.method, r.path, r.node);
+            cx.violate(i, key, detail);
+            return true;
+        }
         if !started {
             started = true;
             lower_before = layer_roots.iter().map(|id| take(*id)).chain(prefixes.iter().map(|(id, p)| take_prefix(*id, p))).collect();
             b.ctl.take_log();
             b.ctl.set_rec(true);
+            b.ctl.watch_quiet.store(true, std::sync::atomic::Ordering::SeqCst);
             return false;
         }
         b.ctl.set_rec(false);
